@@ -72,6 +72,8 @@ func main() {
 		runRefCount(*in, *tables, *dir, *out, *n)
 	case "chunkcoder":
 		runChunkCoder(*in, *out)
+	case "syncache":
+		runSynCache(*in, *tables, *dir, *out)
 	case "ctxpool":
 		runCtxPool(*in, *tables, *dir, *out)
 	case "dictiter":
